@@ -29,9 +29,11 @@ type c04Case struct {
 }
 
 type c04Driver struct {
-	env   *rtEnv
-	n     *rtNode
+	env    *rtEnv
+	n      *rtNode
 	state0 *dsState0
+	budget int // > 0: stop after this many delivered events (0 = unlimited)
+	events int
 }
 
 type dsState0 struct {
@@ -120,9 +122,20 @@ func (d *c04Driver) own() bool {
 	return d.n.dead == ""
 }
 
+func (d *c04Driver) spent() bool {
+	if d.budget > 0 && d.events >= d.budget {
+		return true
+	}
+	d.events++
+	return false
+}
+
 func (d *c04Driver) timeout() bool {
 	if !d.n.ticker.armed {
 		return d.n.dead == ""
+	}
+	if d.spent() {
+		return false
 	}
 	if !d.n.step("timeout", nil) {
 		return false
@@ -131,6 +144,9 @@ func (d *c04Driver) timeout() bool {
 }
 
 func (d *c04Driver) deliver(m Message, from int) bool {
+	if d.spent() {
+		return false
+	}
 	mi := msgInfo{Msg: m, PeerID: d.peer(from)}
 	if !d.n.step("peer", &mi) {
 		return false
